@@ -73,7 +73,7 @@ impl PartialEq for Value {
                         true
                     }
                 }
-                Value::ArgList(..) if *sep1 == ListSeparator::Comma => other == self,
+                Value::ArgList(..) => other == self,
                 _ => false,
             },
             Value::Null => matches!(other, Value::Null),
@@ -102,8 +102,8 @@ impl PartialEq for Value {
             }
             Value::ArgList(list1) => match other {
                 Value::ArgList(list2) => list1 == list2,
-                Value::List(list2, ListSeparator::Comma, Brackets::None) => {
-                    if list1.len() != list2.len() {
+                Value::List(list2, sep2, Brackets::None) => {
+                    if list1.separator != *sep2 || list1.len() != list2.len() {
                         return false;
                     }
 
@@ -404,7 +404,8 @@ impl Value {
     pub fn separator(&self) -> ListSeparator {
         match self {
             Value::List(_, list_separator, _) => *list_separator,
-            Value::Map(..) | Value::ArgList(..) => ListSeparator::Comma,
+            Value::ArgList(arglist) => arglist.separator,
+            Value::Map(..) => ListSeparator::Comma,
             _ => ListSeparator::Space,
         }
     }
